@@ -380,3 +380,66 @@ def constant_params(P, entry_fn, scope_fns):
                     const[callee].discard(ai)
                     changed = True
     return const
+
+
+# --------------------------------------------------------------------------------------------- global state
+_GLOBAL_STATE_TY = _re.compile(r"RefCell<|(?<![A-Za-z])Cell<|Mutex<|RwLock<|Atomic[A-Z]|OnceCell<|OnceLock<|LazyLock<|LazyCell<|thread_local::")
+
+
+def global_state_holders(P):
+    """{def path: (type, file)} of workspace statics / thread-locals that can hold run-time state: a `thread_local!` key, a
+    `static mut`, or a static whose type (or, for workspace ADTs, a field type, transitively) has interior mutability"""
+    out = {}
+
+    def stateful(t, depth=0, seen=None):
+        seen = seen or set()
+        if _GLOBAL_STATE_TY.search(t):
+            return True
+        if depth > 3:
+            return False
+        for ap, adt in P.adts.items():
+            if ap in t and ap not in seen:
+                seen.add(ap)
+                for ft in (adt.field_types() or {}).values():
+                    if stateful(str(ft), depth + 1, seen):
+                        return True
+        return False
+    for f in P.fns.values():
+        if not f.kind.startswith("Static"):
+            continue
+        t = str(f.body.get("t", ""))
+        if "mutability: Mut" in f.kind or stateful(t):
+            path = f.path.split("::{constant#")[0]
+            out.setdefault(path, (t, f.file))
+    return out
+
+
+def global_state_uses(P, scope_fns, holders):
+    """[(fn, holder path, missing params, key params)] for functions in scope that touch a global state holder. `missing` lists
+    the non-`&mut` parameters of the function that a keyed access (entry/get/insert/contains_key) to the holder does not derive its
+    key from; None when the access is not keyed."""
+    from prov import Prov
+    out = []
+    for f in scope_fns:
+        touched = {norm(x.get("def", "")) for x in f.walk() if x.get("k") == "Path" and norm(x.get("def", "")) in holders}
+        if not touched:
+            continue
+        pv = Prov(f)
+        for h in sorted(touched):
+            keyed = [y for y in f.walk() if y.get("k") == "MethodCall" and y.get("method") in ("entry", "get", "insert", "contains_key", "contains", "get_mut", "get_or_insert_with")
+                     and ("def", h) in pv.atoms(y["recv"]) and y["args"]]
+            if not keyed:
+                out.append((f, h, None, None))
+                continue
+            key_params = set()
+            for y in keyed:
+                key_params |= {p[1] for p in pv.atoms(y["args"][0]) if p[0] == "param"}
+            req = []
+            for p in f.params:
+                if str(p.get("t", "")).startswith("&mut "):
+                    continue
+                for b in subnodes(p):
+                    if b.get("k") == "Binding":
+                        req.append(pv.params.get(b["local"]))
+            out.append((f, h, sorted(set(req) - key_params), sorted(key_params)))
+    return out
